@@ -1094,3 +1094,7 @@ def run(ctx):
     _run_before_r07_9(ctx)
     from . import replay_rules
     ctx.guard(replay_rules.r07_9)
+
+
+EXPLANATION = EXPLANATION + " " + (
+    "R07.9 (replay.py, see C03): the real tree is driven through four histories per configuration; every query must return normally and after every query the store of the cache object the constructor installed holds at most cache_size entries. R07.8: _Interval._split is evaluated on concrete nodes with an adversarial quantiser (idempotent on the node's end points and the requested point, mapping the computed midpoint to an end point): it must terminate and leave the requested point as a node boundary.")
